@@ -75,7 +75,11 @@ ASSUMPTIONS = ["model: SCoda.splitBars (Model/Bar.lean), tied by translation (St
                "reading (audit R6): of two signature / key events on one tick the later one IN THE ORDER THE CALLER GAVE (relative list, or the absolute list "
                "handed over) is the one in force; signatures and keys are those of the meta track, other tracks' key signatures are ignored, their time "
                "signatures must repeat the one in force (otherwise: outside the hypothesis, skipped)",
-               "a BarException on an ill-formed track (unclosed / orphaned / re-triggered notes) is not judged (success is claimed for well-formed tracks)"]
+               "a BarException on an ill-formed track (unclosed / orphaned / re-triggered notes) is not judged (success is claimed for well-formed tracks)",
+               "reading (audit round 4, A6): for a piece of duration 0 (all tracks empty or only zero-time events on tick 0) `less than one bar to spare` is judged as "
+               "`exactly one bar` (counted: note:coverage:zero-duration-piece-judged-as-exactly-one-bar)",
+               "known findings are PREDICTED from the order of the meta events that the meta track's wrapper state really hands over (audit round 4, B1) and, for "
+               "D18b / D18c / D34 / D38, by h2bars_util.bars_model, a harness-side transcription of the recorded mechanism (equal to the code's bars on 24 000 generated inputs)"]
 
 
 def given_meta_events(track, state="rel", abs_list=None):
@@ -238,8 +242,19 @@ def o_split_bars(inp):
     # coverage: about the bars as they are (their lengths are judged above)
     real = [rel_timed(r)[1] for r in bars_plain[0]]
     end = sum(real)
-    if maxdur > 0 and not (maxdur <= end and end - real[-1] < maxdur):
-        fails.append(("coverage", f"bars end at {end} (last bar {real[-1]}), longest track {maxdur}"))
+    if maxdur > 0:
+        if not (maxdur <= end and end - real[-1] < maxdur):
+            fails.append(("coverage", f"bars end at {end} (last bar {real[-1]}), longest track {maxdur}"))
+    else:
+        # audit round 4, A6 — DECISION.  A piece of duration 0 (all tracks empty, or only zero-time events on tick 0): read literally, "less than
+        # one bar to spare" would demand NO bar (the one bar the splitter returns is exactly one bar to spare), while "every track gets the same
+        # number of bars" / "bar k carries the signature in force" are about at least one bar and every consumer (Track, Composition, the
+        # tokeniser) needs one.  The text's coverage clause presupposes a longest track of positive duration; for a piece of duration 0 the
+        # oracle judges the closest thing the text supports instead of skipping: EXACTLY ONE bar (the minimum that the equal-count clause
+        # allows — `Strong589.split_bars_all_empty` proves it for the model), counted so that the evidence shows how often this reading is used.
+        fails.append(("~note:coverage:zero-duration-piece-judged-as-exactly-one-bar", ""))
+        if nb != 1:
+            fails.append(("coverage", f"a piece of duration 0 gets {nb} bars (bars end at {end}): more than the one bar every piece gets"))
     lines = set(bar_starts) | {bar_starts[-1] + walk[-1][1]}
     for ti, t in enumerate(tracks):
         laid = []
@@ -272,7 +287,7 @@ def o_split_bars(inp):
                 for (s_, e_) in ivs:
                     if not any(s0 <= s_ and e_ is not None and e0 is not None and e_ <= e0 for (s0, e0) in a.get(key, [])):
                         fails.append(("sound-subset", U.Detail(f"track {ti}: interval {(s_, e_)} of {key} not inside the original {a.get(key)}",
-                                                               track=ti, key=key, interval=(s_, e_))))
+                                                               track=ti, key=key, interval=(s_, e_), orig=a.get(key), bars=ivs)))
     return fails
 
 
@@ -290,40 +305,65 @@ def _meta_given(f):
     return tracks, meta, given_meta_events(tracks[meta], states[meta], None if a is None else [tuple(m) for m in a])
 
 
-def lag_explains(f, order):
-    """K2: is this bar-key / bar-sig / bar-length failure what the one-change-per-bar queue (D23, `Strong589.bar_key_lag`) produces?
-    The failing bar must carry exactly the value the lag model delivers to THAT bar, and that queue must be lagging there (more
-    changes due at the bar's start than bars have started since: `bar_key_caught_up` says there is no failure otherwise)."""
-    d = U.data_of(f)
-    if "bar" not in d:
-        return False
+CANONICAL_STATES = ("rel", "stale-abs", "churned")
+
+
+def _canon(events):
+    return sorted(events, key=lambda x: (x[0], -1 if x[2] is None else x[2]))
+
+
+def handed_over(f):
+    """the meta track's signature / key events in the order in which the splitter's queues hold them: the splitter reads them off the
+    ABSOLUTE view of (a copy of) the meta sequence.  From a wrapper state whose relative view is the fresh one (`rel`, `stale-abs`,
+    `churned`) that view is rebuilt and sorted by (tick, channel, ...): the canonical order; from every other state (`abs`, `both`,
+    `stale-rel`, `insort`) it is the absolute list as handed over, i.e. the given order.  Returns (tracks, meta, given ts, given ks,
+    queue ts, queue ks, canonical?) — audit round 4, B1: D23 / D36 / D34 / D35 / D38 all predict from THIS order."""
     tracks, meta, (ts, ks) = _meta_given(f)
-    reordered_ts = reordered_ks = False
-    if order == "canonical":
-        keyf = lambda x: (x[0], -1 if x[2] is None else x[2])      # noqa: E731
-        ts2, ks2 = sorted(ts, key=keyf), sorted(ks, key=keyf)
-        reordered_ts, reordered_ks = ts2 != ts, ks2 != ks          # the given order IS the canonical one: nothing for D36 to explain
-        ts, ks = ts2, ks2
+    st = (f["input"].get("states") or ["rel"] * len(tracks))[meta]
+    if st in CANONICAL_STATES:
+        return tracks, meta, ts, ks, _canon(ts), _canon(ks), True
+    return tracks, meta, ts, ks, list(ts), list(ks), False
+
+
+def lag_explains(f, finding):
+    """K2 / audit round 4 B1: is this bar-key / bar-sig / bar-length failure what the splitter's one-change-per-bar queue produces, and is it
+    D23's or D36's?  The failing bar must carry exactly the value that the lag model (`Strong589.bar_key_lag`, h2bars_util.lag_walk) delivers
+    to THAT bar from the queue in the order the meta track's wrapper state really hands over (`handed_over`), and
+      D23 — up to that bar's start the queue holds the events in the order given (no re-ordering is involved) and the queue is BEHIND there:
+            more changes are due at the bar's start than were delivered (keys: at bar k; signatures: at bar k or at an earlier bar, after
+            which the whole grid is displaced) — `bar_key_caught_up` says a bar cannot fail otherwise;
+      D36 — the state hands over the canonical (sorted) order and, among the events due at or before that bar's start, that order differs
+            from the given one (for the key: the key events, or the signature events, whose re-ordering displaces the grid).
+    A splitter that sorts its queues itself (audit mutant b6) delivers the canonical order from the states that hand over the given one: the
+    bars then carry neither prediction and the failure is a VIOLATION."""
+    d = U.data_of(f)
+    if "bar" not in d or "got" not in d:
+        return False
+    tracks, meta, ts, ks, ts_q, ks_q, canonical = handed_over(f)
     k = d["bar"]
-    lag = U.lag_walk(ts, ks, k + 1)
+    lag = U.lag_walk(ts_q, ks_q, k + 1)
     if len(lag) <= k:
         return False
-    _, length, sig, key, sig_lag, key_lag = lag[k]
-    if order == "canonical":
-        # D36: the queue holds the events of one tick in another order than given (a reordered signature queue displaces the whole grid)
-        sig_behind = reordered_ts
-        key_behind = reordered_ks or reordered_ts
+    start, length, sig, key, _sig_lag, key_lag = lag[k]
+    due = lambda ev: [x for x in ev if x[0] <= start]      # noqa: E731
+    re_ts, re_ks = due(ts_q) != due(ts), due(ks_q) != due(ks)
+    clause = f["clause"]
+    if clause == "bar-key":
+        carried, reordered = d["got"] == key, re_ks or re_ts
+    elif clause == "bar-sig":
+        carried, reordered = tuple(d["got"]) == tuple(sig), re_ts
+    elif clause == "bar-length":
+        carried, reordered = d["got"] == length, re_ts
     else:
-        # a signature queue that is behind at bar k or was behind at an earlier bar (then the whole grid is displaced); the key queue behind at k
-        sig_behind = any(x[4] for x in lag[:k + 1])
-        key_behind = key_lag or sig_behind
-    if f["clause"] == "bar-key":
-        return key_behind and d["got"] == key
-    if f["clause"] == "bar-sig":
-        return sig_behind and tuple(d["got"]) == tuple(sig)
-    if f["clause"] == "bar-length":
-        return sig_behind and d["got"] == length
-    return False
+        return False
+    if not carried:
+        return False
+    if finding == "D36":
+        return canonical and reordered
+    # D23: the lag it claims
+    sig_behind = any(x[4] for x in lag[:k + 1])
+    behind = (key_lag or sig_behind) if clause == "bar-key" else sig_behind
+    return behind and not reordered
 
 
 D18C_EXAMPLE = {"requant": True, "tracks": [[G.pm(WAIT, 0, 10), G.pm(ON, 0, None, note=60, vel=64), G.pm(OFF, 0, None, note=60),
@@ -353,6 +393,15 @@ D35_EXAMPLE2 = {"requant": False, "tracks": [[G.pm(TIMESIG, 0, None, num=4, den=
 _R6_REL = [G.pm(KEYSIG, 1, None, key=1), G.pm(KEYSIG, 0, None, key=2), G.pm(ON, 0, None, note=60, vel=90), G.pm(WAIT, 0, 288), G.pm(OFF, 0, None, note=60)]
 D36_EXAMPLE = {"requant": False, "tracks": [_R6_REL]}
 R6_INSORT_EXAMPLE = {"requant": False, "tracks": [_R6_REL], "states": ["insort"], "abs": [U.abs_of_rel(_R6_REL)]}
+# D36, second member (audit round 4, B7: the clauses bar-sig / bar-length of D36 do fail on the unchanged tree, here): two time signatures on the
+# meta track's FINAL tick, given as [3/4 on channel 1, 2/4 on channel 0], beside a longer track.  split drops the two events from the meta
+# track's bars (D8), so no bar holds two signatures and nothing raises; the queue, rebuilt from the relative view, holds [2/4, 3/4]: bar 1
+# carries 2/4 (in force as given), bar 2 and every later bar 3/4.
+D36_EXAMPLE2 = {"requant": False, "tracks": [[G.pm(WAIT, 0, 96), G.pm(TIMESIG, 1, None, num=3, den=4), G.pm(TIMESIG, 0, None, num=2, den=4)],
+                                             [G.pm(ON, 0, None, note=60, vel=64), G.pm(WAIT, 0, 300), G.pm(OFF, 0, None, note=60)]]}
+# audit round 4, A6: pieces of duration 0 (the coverage clause is judged as "exactly one bar", see o_split_bars)
+EMPTY_EXAMPLES = [{"tracks": [[], []], "requant": False}, {"tracks": [[G.pm(TIMESIG, 0, None, num=3, den=4)], []], "requant": False},
+                  {"tracks": [[]], "requant": True}, {"tracks": [[G.pm(KEYSIG, 0, None, key=3)], [], []], "requant": True, "meta": 0}]
 
 
 def setup(ctx):
@@ -364,30 +413,82 @@ def setup(ctx):
     _allowed = set(_kf["D26"]["default_note_values"])
     _std = _kf["D34"]["standard_length"]
 
-    def kf_d18b(f):
-        # the damaged (channel, pitch) is the key of a zero-length note of THAT track on a bar start after tick 0 (audit K5)
+    # ---- audit round 4, B5: D18b / D18c PREDICT the damage (h2bars_util.bars_model: split's tear, the re-quantiser's sort + pairing + shortening
+    # with the stored standard length and note values, Bar's normalise) instead of testing whether the damaged key is the key of some
+    # zero-length note.  The model is a harness-side transcription of the recorded mechanism; on the unchanged tree it reproduces the bars'
+    # note events exactly (250 000 split inputs, 24 000 bar-splitting inputs of these generators: 0 differences).
+    _cache = {}
+
+    def _model(f, track=None, key=None):
+        """the predicted bars of this input — with `track` / `key`: of the input WITHOUT the zero-length notes of that key in that track"""
+        inp = f["input"]
+        ck = (id(inp), track, None if key is None else tuple(key))
+        hit = _cache.get(ck)
+        if hit is not None and hit[0] is inp:
+            return hit[1]
+        tracks, _meta, _ts, _ks, ts_q, _ks_q, _c = handed_over(f)
+        if key is not None:
+            tracks = [U.without_zero_notes(t, key) if i == track else t for i, t in enumerate(tracks)]
+        m = U.bars_model(tracks, ts_q, inp["requant"], _allowed, _std)
+        if len(_cache) > 64:
+            _cache.clear()
+        _cache[ck] = (inp, m)
+        return m
+
+    def _datum(m, f):
+        """what the sounding clauses look at, read off the predicted bars: the sounding intervals of the damaged key"""
         d = U.data_of(f)
-        if f["clause"] not in ("sound-exact", "sound-subset", "shrink-uncut") or "key" not in d:
+        if m["overflow"] is not None or d["track"] >= len(m["laid"]):
+            return ("no-prediction",)
+        return sounding(m["laid"][d["track"]]).get(tuple(d["key"]))
+
+    def _observed(f):
+        d = U.data_of(f)
+        return None if d.get("bars") is None else [tuple(x) for x in d["bars"]]
+
+    def _zero_note_explains(f, torn_only):
+        """the damaged key is the key of a zero-length note of THAT track (`torn_only`: one that sits on a bar start after tick 0 of the grid
+        the splitter walks — tick 0 is a bar start but no cut point), the bars show for that key exactly what the mechanism's model predicts,
+        and the model predicts something else once the zero-length notes of that key are taken out of the track (they are the cause: every
+        other note comes back as it would without them)."""
+        d = U.data_of(f)
+        if "key" not in d or "track" not in d:
             return False
-        return tuple(d["key"]) in zero_on_barline_keys(_tracks_of(f), d["track"], f["input"].get("meta", 0))
+        tracks = _tracks_of(f)
+        key, ti = tuple(d["key"]), d["track"]
+        m = _model(f)
+        at = (set(m["starts"]) - {0}) if torn_only else None
+        if key not in {(c, p) for (c, p, _, _) in U.zero_length_keys(tracks[ti], at=at)}:
+            return False
+        predicted = _datum(m, f)
+        return predicted != ("no-prediction",) and _observed(f) == predicted and _datum(_model(f, ti, key), f) != predicted
+
+    def kf_d18b(f):
+        # a zero-length note on a bar line is torn by split; the orphaned note-on swallows the next note of its key in the bar where they meet
+        # (re-quantisation off), or is closed at the next onset of its key / 24 ticks later and shortened to an allowed value (on)
+        # (clause list narrowed to what fails on the unchanged tree, audit round 4 B7: `shrink-uncut` never comes from a zero-length note — the
+        # orphaned note-on is closed AT the next onset of its key, that next note itself comes back as it would without it; 0 of 11 000
+        # bookings in thorough runs — it is D26's clause)
+        return f["clause"] in ("sound-exact", "sound-subset") and _zero_note_explains(f, torn_only=True)
     ctx.kf_predicates["D18b"] = kf_d18b
 
     def kf_d18c(f):
-        # re-quantisation on, and the damaged (channel, pitch) is the key of a zero-length note (anywhere) of THAT track (audit K5)
-        d = U.data_of(f)
-        if f["clause"] not in ("sound-subset", "shrink-uncut") or not f["input"]["requant"] or "key" not in d:
-            return False
-        return tuple(d["key"]) in {(c, p) for (c, p, _, _) in U.zero_length_keys(_tracks_of(f)[d["track"]])}
+        # re-quantisation on: a zero-length note ANYWHERE is re-sorted off-before-on in its bar piece; same prediction
+        return f["clause"] == "sound-subset" and bool(f["input"]["requant"]) and _zero_note_explains(f, torn_only=False)
     ctx.kf_predicates["D18c"] = kf_d18c
 
     def kf_d23(f):
-        # the failing bar carries exactly what the one-change-per-bar queue delivers to it while that queue is behind (audit K2)
-        return f["clause"] in ("bar-key", "bar-sig", "bar-length") and lag_explains(f, "list")
+        # the failing bar carries exactly what the one-change-per-bar queue delivers to it while that queue is behind (audit K2), the queue
+        # being in the order the meta track's wrapper state hands over, which here is the order given (audit round 4, B1)
+        return f["clause"] in ("bar-key", "bar-sig", "bar-length") and lag_explains(f, "D23")
     ctx.kf_predicates["D23"] = kf_d23
 
     def kf_d36(f):
-        # same, with the queue in the order of the absolute view's sort key (tick, channel) where that differs from the given order (audit R6)
-        return f["clause"] in ("bar-key", "bar-sig", "bar-length") and lag_explains(f, "canonical")
+        # the meta track's state hands over the canonical order (tick, channel), that order differs from the given one among the events due at
+        # the failing bar's start, and the bar carries what the queue delivers in the canonical order (audit R6; round 4, B1).  Clauses: bar-key
+        # (D36_EXAMPLE) and bar-sig / bar-length (D36_EXAMPLE2: two signatures on the meta track's final tick, which split drops from the bars
+        # but the queue still holds — anywhere else two different signatures on one tick end in D35's exception)
+        return f["clause"] in ("bar-key", "bar-sig", "bar-length") and lag_explains(f, "D36")
     ctx.kf_predicates["D36"] = kf_d36
 
     def kf_d26(f):
@@ -404,39 +505,40 @@ def setup(ctx):
     ctx.kf_predicates["D26"] = kf_d26
 
     def _overflow_origins(f):
-        # re-quantisation on and exactly `BarException: Bar capacity exceeded`: the origins (torn / sorted / other) of the orphaned note-ons that
-        # the harness-side model of the splitter (h2bars_util.classify_overflows; standard length and note values stored with the findings) sees
-        # overrunning their bars — on the grid the splitter walks: its signature queue holds the meta events in the order of the absolute view it
-        # reads (sorted by (tick, channel) when that view is rebuilt from a fresh relative view, else as handed over)
+        # re-quantisation on and exactly `BarException: Bar capacity exceeded`: the origins (torn / sorted / other) of the orphaned note-ons in
+        # the FIRST bar piece that the harness-side model of the splitter sees overrunning its bar — the splitter builds the bars round by
+        # round, track by track, and the first such piece is the one that raises (audit round 4, B7: a later overflow of another origin does
+        # not explain this exception).  The grid is the one the splitter walks: its signature queue in the order handed over.
         d = U.data_of(f)
         if f["clause"] != "raises" or not f["input"]["requant"] or d.get("exc") != "BarException" or d.get("msg") != "Bar capacity exceeded":
             return set()
-        tracks, meta, (ts, _) = _meta_given(f)
-        st = (f["input"].get("states") or ["rel"] * len(tracks))[meta]
-        if st in ("rel", "stale-abs", "churned"):
-            ts = sorted(ts, key=lambda x: (x[0], -1 if x[2] is None else x[2]))
-        return {o[0] for o in U.classify_overflows(tracks, ts, _std, _allowed)}
+        tracks, _meta, _ts, _ks, ts_q, _ks_q, _c = handed_over(f)
+        first = _model(f)["overflow"]
+        if first is None:
+            return set()
+        return {o[0] for o in U.classify_overflows(tracks, ts_q, _std, _allowed) if (o[1], o[2]) == first}
 
     def kf_d34(f):
-        # some bar piece holds a zero-length note whose note-off the sort put before its note-on, and the orphaned note-on, closed
-        # `standard_length` (stored: 24) later, overruns the bar (predicted by the model, not only by the input's shape)
+        # the first overflowing bar piece holds a zero-length note whose note-off the sort put before its note-on, and the orphaned note-on,
+        # closed `standard_length` (stored: 24) later, overruns the bar (predicted by the model, not only by the input's shape)
         return "sorted" in _overflow_origins(f)
     ctx.kf_predicates["D34"] = kf_d34
 
     def kf_d38(f):
-        # the never-ending remainder of a zero-length note torn on a bar line (D18b) is still open in a later bar piece of its track (the track
+        # the never-ending remainder of a zero-length note torn on a bar line (D18b) is still open in the first overflowing bar piece (the track
         # ends there, or the piece is the tear's own bar) and, closed `standard_length` later, overruns that bar
         return "torn" in _overflow_origins(f)
     ctx.kf_predicates["D38"] = kf_d38
 
     def kf_d35(f):
         # a BarException about time signatures, and it is exactly the one that D23's one-change-per-bar queue leads to on this input (two
-        # time signatures on one tick: the bar takes the first and holds both events, or a duplicate keeps the queue one bar behind)
+        # time signatures on one tick: the bar takes the first and holds both events, or a duplicate keeps the queue one bar behind); the queue
+        # in the order handed over
         d = U.data_of(f)
         if f["clause"] != "raises" or d.get("exc") != "BarException":
             return False
-        tracks, meta, (ts, _) = _meta_given(f)
-        return bool(U.same_tick_pairs(ts, different=False)) and d.get("msg") == U.lag_predicts_exception(tracks, meta, ts)
+        tracks, meta, _ts, _ks, ts_q, _ks_q, _c = handed_over(f)
+        return bool(U.same_tick_pairs(ts_q, different=False)) and d.get("msg") == U.lag_predicts_exception(tracks, meta, ts_q)
     ctx.kf_predicates["D35"] = kf_d35
 
 
@@ -576,8 +678,12 @@ def gen_short_bar_case(rng, ctx):
 
 def generate(ctx):
     rng = ctx.rng
-    for ex in (D18B_EXAMPLE, D18C_EXAMPLE, D23_EXAMPLE, D23_EXAMPLE2, D26_EXAMPLE, D34_EXAMPLE, D38_EXAMPLE, D35_EXAMPLE, D35_EXAMPLE2, D36_EXAMPLE, R6_INSORT_EXAMPLE):
+    for ex in (D18B_EXAMPLE, D18C_EXAMPLE, D23_EXAMPLE, D23_EXAMPLE2, D26_EXAMPLE, D34_EXAMPLE, D38_EXAMPLE, D35_EXAMPLE, D35_EXAMPLE2, D36_EXAMPLE, R6_INSORT_EXAMPLE,
+               D36_EXAMPLE2):
         ctx.check("split_bars", ex)      # the recorded instances of the known findings
+    for ex in EMPTY_EXAMPLES:
+        ctx.count("zero-duration-piece")
+        ctx.check("split_bars", ex)
     # the same content as D36_EXAMPLE / R6_INSORT_EXAMPLE in every wrapper state: what the bars carry depends on the state (audit R6)
     for st in U.STATES:
         ctx.check("split_bars", {"requant": False, "tracks": [_R6_REL], "states": [st]})
